@@ -392,6 +392,7 @@ type LoopContract struct {
 	IterEnsures []*Clause // checked at the end of every completed iteration (back edge) only
 	Invariants []*Clause
 	Decreases  *Clause
+	Forever    bool // the loop is meant to run until the process/goroutine is stopped (select loop of a background task)
 	Assigns    []string
 }
 
@@ -830,6 +831,8 @@ func (cs *Contracts) ParseContractFile(path string, pkgName string, isSpec bool)
 				if c := mkClause("body_ensures", tag, rest, src); c != nil {
 					lc.BodyEnsures = append(lc.BodyEnsures, c)
 				}
+			case "forever":
+				lc.Forever = true
 			case "decreases":
 				lc.Decreases = mkClause("decreases", "", rest, src)
 			case "assigns":
